@@ -386,6 +386,19 @@ theorem event_named_like_accessor (m : Machine) (dyn : Bool) (s : Name) (hs : s 
     apply List.mem_append_left
     exact List.mem_flatMap.mpr ⟨sp, hsp, by rcases hn with hn | hn <;> simp [hn]⟩
 
+/-- for a machine the macro accepts, the states are pairwise distinct already (R3), so the variants of the state
+    enum never clash: the conditions that remain are about *derived* names only -/
+theorem accepted_iff_validated (m : Machine) (hv : m.validate = .ok ()) (dyn : Bool) :
+    Static.accepted (codeOf m dyn) = true ↔
+      (typeNamesOf m dyn).Nodup ∧ (fieldsOf m).Nodup ∧
+      (∀ s ∈ m.states ++ sortNames m.hierarchy.allSuperstates, (methodsOf m dyn s).Nodup) ∧
+      (dyn = true → (variantsOf m).Nodup) ∧ (pairsOf m).Nodup ∧ (dyn = true → (dynMethodsOf m).Nodup) := by
+  rw [accepted_iff]
+  have hn := validate_states_nodup m hv
+  constructor
+  · rintro ⟨h1, h2, h3, h4, _, h6, h7⟩; exact ⟨h1, h2, h3, h4, h6, h7⟩
+  · rintro ⟨h1, h2, h3, h4, h6, h7⟩; exact ⟨h1, h2, h3, h4, fun _ => hn, h6, h7⟩
+
 /-! ### what the verdict does not depend on -/
 
 /-- **The modelled verdict of rustc is the same in every configuration**: `async`, the context mode and type, the
